@@ -176,7 +176,10 @@ pub fn configure_writer(w: &mut MinidumpWriter, opts: &Value, report: &Value) ->
     if opts.get("skip").and_then(|v| v.as_bool()).unwrap_or(false) {
         w.skip_stacks_if_mapping_unreferenced();
     }
-    if let Some(p) = opts.get("principal").filter(|v| !v.is_null()) {
+    if opts.get("principal").and_then(|v| v.as_str()) == Some("unset") {
+        w.principal_mapping_address = None;
+        info["principal"] = Value::Null;
+    } else if let Some(p) = opts.get("principal").filter(|v| !v.is_null()) {
         let a = resolve(p, report);
         w.set_principal_mapping_address(a as usize);
         info["principal"] = json!(a);
@@ -508,12 +511,16 @@ pub fn worker_main(scn: &Value, report: &Value, shared_path: Option<String>, out
                 for (k, v) in i.as_object().cloned().unwrap_or_default() {
                     winfo[k] = v;
                 }
+                if let Some(b) = step["writer"].get("blamed") {
+                    writer.blamed_thread = resolve_tid(b, report);
+                    winfo["blamed"] = json!(writer.blamed_thread);
+                }
                 if let Some(cc) = step["writer"].get("crash_context") {
                     if cc.is_null() {
                         writer.crash_context = None;
                         supplied = Value::Null;
                     } else {
-                        let (c, s) = build_crash_context(cc, report, blamed);
+                        let (c, s) = build_crash_context(cc, report, writer.blamed_thread);
                         supplied = s;
                         writer.set_crash_context(c);
                     }
@@ -609,7 +616,7 @@ pub fn worker_main(scn: &Value, report: &Value, shared_path: Option<String>, out
                         rec["soft_errors_raw"] = json!(String::from_utf8_lossy(se));
                     }
                     if rec["outcome"] == "ok" || scn.get("oracles_on_error").is_some() {
-                        rec["oracle"] = collect_oracles(report, pid, blamed, &p, img, scn.get("want_regs").and_then(|v| v.as_bool()).unwrap_or(false));
+                        rec["oracle"] = collect_oracles(report, pid, writer.blamed_thread, &p, img, scn.get("want_regs").and_then(|v| v.as_bool()).unwrap_or(false));
                     }
                     // stack bytes from SP upward vs target memory, sanitised words etc. are derived from these
                     if scn.get("want_stacks").and_then(|v| v.as_bool()).unwrap_or(false) {
